@@ -130,6 +130,9 @@ func init() {
 		Worker: func(w *core.WorkerCtx) {
 			runRandomScenarios(w, []string{"C10"}, w.Pick(10, 50), func(p *ledger.Profile) { p.PRules = 0.35 }, nil)
 			c10Genesis(w)
+			if w.Batch == 1 || (w.Thorough() && w.Batch%8 == 1) {
+				c10GossipPath(w)
+			}
 		},
 	})
 }
